@@ -13,6 +13,7 @@ import (
 	"verif/internal/c08"
 	"verif/internal/c09"
 	"verif/internal/c11"
+	"verif/internal/c12"
 	"verif/internal/c13"
 	"verif/internal/c14"
 	"verif/internal/c15"
@@ -31,6 +32,7 @@ func init() {
 	monitors["C08"] = c08.Run
 	monitors["C09"] = c09.Run
 	monitors["C11"] = c11.Run
+	monitors["C12"] = c12.Run
 	monitors["C13"] = c13.Run
 	monitors["C14"] = c14.Run
 	monitors["C15"] = c15.Run
